@@ -2,7 +2,7 @@
 """Run the quick checks against every seeded change under /verif/seeded/ (each applied to a scratch copy of /repo,
 never to /repo itself) and record which checks report a violation.
 
-usage: seed_audit.py [--all-checks] [seed ids...]     writes /verif/seeded/AUDIT.json
+usage: seed_audit.py [--all-checks] [--out=path] [seed ids...]     writes /verif/seeded/AUDIT.json (or --out, for shards)
 """
 import glob
 import json
@@ -15,7 +15,7 @@ VERIF = '/verif'
 args = [a for a in sys.argv[1:] if not a.startswith('--')]
 all_checks = '--all-checks' in sys.argv
 seeds = sorted(glob.glob(f'{VERIF}/seeded/C*')) if not args else [f'{VERIF}/seeded/{a}' for a in args]
-audit_path = f'{VERIF}/seeded/AUDIT.json'
+audit_path = next((a.split('=', 1)[1] for a in sys.argv[1:] if a.startswith('--out=')), f'{VERIF}/seeded/AUDIT.json')
 audit = json.load(open(audit_path)) if os.path.exists(audit_path) else {}
 for sd in seeds:
     sid = os.path.basename(sd)
